@@ -108,7 +108,13 @@ CMTOPS = [  # comments that contain the characters of the operator which follows
     "t = (a  # a - b + c\n     - b)\nu = (c  # * ** // %\n     ** d)\nv = [e  # << >> < >\n     << f]",
     "w = (g  # and or not\n     and h  # or\n     or i)\nx = (j  # < <= is not in\n     is not k  # not in\n     not in l)\ny = (-  # - ~\n     m)",
 ]
-PROGS = BASE + EXTRA + TRICKY + PARS + LOCS + MULTILINE + FSTRDBG + DECOS + MLFIRST + MLELEM + CMTOPS
+PARS2 = [  # parentheses of a callee / subscripted value / attribute value next to the delimiters of the call itself, by number of arguments
+    "(f)(a); ((f))(a); (f)(); (f)(a, b); (f)(a, k=v); (f)(k=v); (f)(*a); (f)(**k); (a or b)(c); (lambda: x)(y); (f)((a)); (f)(i for i in j)",
+    "(v)[i]; ((v))[(i)]; (v)[a:b]; (v).a; ((v).a)(b); (f)(a)(b); (f)((a))((b)); (yield)(a); (await_)(a)",
+    "class K((B)): pass\nclass L((B), m=M): pass\nclass N(m=(M)): pass\nmatch s:\n    case C((a)): pass\n    case C(k=(a)): pass\n    case (C)(a): pass" if False else
+    "class K((B)): pass\nclass L((B), m=M): pass\nclass N(m=(M)): pass\nmatch s:\n    case C((a)): pass\n    case C(k=(a)): pass",
+]
+PROGS = BASE + EXTRA + TRICKY + PARS + LOCS + MULTILINE + FSTRDBG + DECOS + MLFIRST + MLELEM + CMTOPS + PARS2
 for _p in PROGS:
     ast.parse(_p)
 
